@@ -1,6 +1,7 @@
 package retr
 
 import (
+	"bytes"
 	"context"
 	"fmt"
 	"io"
@@ -9,11 +10,13 @@ import (
 
 	"github.com/libp2p/go-libp2p/core/crypto"
 	"google.golang.org/protobuf/encoding/protowire"
+	"google.golang.org/protobuf/proto"
 
 	"verifharness/bm"
 	"verifharness/hx"
 
 	"github.com/evstack/ev-node/types"
+	pb "github.com/evstack/ev-node/types/pb/evnode/v1"
 )
 
 const baseTime = int64(1_700_000_000) * 1_000_000_000
@@ -139,6 +142,91 @@ func (c *chain) forgeries(r *hx.Rng) map[string][]byte {
 	}
 	sd3 := types.SignedData{Data: d, Signature: sg, Signer: types.Signer{PubKey: advPub, Address: types.KeyAddress(advPub)}}
 	out["data-foreign-address"], _ = sd3.MarshalBinary()
+
+	// --- near misses of the key/address binding (/repo e753a34)
+	aaddr := types.KeyAddress(advPub)
+	gkey, _ := crypto.MarshalPublicKey(c.pub)
+	akey, _ := crypto.MarshalPublicKey(advPub)
+	graw, _ := c.pub.Raw()
+	araw, _ := advPub.Raw()
+	// raw wire construction: any signer address / key bytes, any signature
+	rawHdr := func(h *types.Header, sig, addr, key []byte) []byte {
+		b, _ := proto.Marshal(&pb.SignedHeader{Header: h.ToProto(), Signature: sig, Signer: &pb.Signer{Address: addr, PubKey: key}})
+		return b
+	}
+	rawDat := func(dd *types.Data, sig, addr, key []byte) []byte {
+		b, _ := proto.Marshal(&pb.SignedData{Data: dd.ToProto(), Signature: sig, Signer: &pb.Signer{Address: addr, PubKey: key}})
+		return b
+	}
+	pkBytes := func(fields ...interface{}) []byte { // (uint64 type | []byte data)... in the given order
+		var b []byte
+		for _, f := range fields {
+			switch v := f.(type) {
+			case uint64:
+				b = protowire.AppendTag(b, 1, protowire.VarintType)
+				b = protowire.AppendVarint(b, v)
+			case []byte:
+				b = protowire.AppendTag(b, 2, protowire.BytesType)
+				b = protowire.AppendBytes(b, v)
+			}
+		}
+		return b
+	}
+	gh := any.Header
+	gsig := []byte(any.Signature)
+	// 8 the right key with a wrong address field (the signature does not cover the signer)
+	out["hdr-right-key-wrong-address-field"] = rawHdr(&gh, gsig, aaddr, gkey)
+	out["hdr-right-key-empty-address-field"] = rawHdr(&gh, gsig, nil, gkey)
+	// 9 the address of the carried key, but the header names the proposer (and the reverse)
+	f9 := *any
+	f9.Header.AppHash = []byte("forged-9")
+	out["hdr-foreign-key-own-address-names-proposer"] = rawHdr(&f9.Header, sign(&f9.Header, advPriv), aaddr, akey)
+	f9b := *any
+	f9b.Header.ProposerAddress = aaddr
+	out["hdr-names-foreign-signer-claims-proposer"] = rawHdr(&f9b.Header, sign(&f9b.Header, advPriv), gaddr, akey)
+	// 10 no key at all, the proposer's address
+	out["hdr-key-absent-proposer-address"] = rawHdr(&gh, gsig, gaddr, nil)
+	// 11 the proposer's key in non-canonical envelopes (same key: must still be accepted), and envelopes that
+	// only look like it
+	out["hdr-genuine-key-unknown-field"] = rawHdr(&gh, gsig, gaddr, protowire.AppendVarint(protowire.AppendTag(append([]byte(nil), gkey...), 9, protowire.VarintType), 7))
+	out["hdr-genuine-key-type-wraps-32-bits"] = rawHdr(&gh, gsig, gaddr, pkBytes(uint64(1<<32+1), graw))
+	out["hdr-genuine-key-data-first"] = rawHdr(&gh, gsig, gaddr, pkBytes(graw, uint64(1)))
+	out["hdr-genuine-key-nonminimal-varint"] = rawHdr(&gh, gsig, gaddr, append([]byte{0x08, 0x81, 0x00, 0x12, 0x20}, graw...))
+	f11 := *any
+	f11.Header.AppHash = []byte("forged-11")
+	out["hdr-key-data-proposer-then-foreign"] = rawHdr(&f11.Header, sign(&f11.Header, advPriv), gaddr, pkBytes(uint64(1), graw, araw))
+	out["hdr-key-data-foreign-then-proposer"] = rawHdr(&f11.Header, sign(&f11.Header, advPriv), gaddr, pkBytes(uint64(1), araw, graw))
+	out["hdr-key-type-foreign-then-ed25519"] = rawHdr(&gh, gsig, gaddr, pkBytes(uint64(5), uint64(1), graw))
+	out["hdr-key-type-ed25519-then-unknown"] = rawHdr(&gh, gsig, gaddr, pkBytes(uint64(1), uint64(5), graw))
+	// 12 a key of another type (secp256k1): under the proposer's address, and self-consistently under its own
+	sPriv, sPub, _ := crypto.GenerateSecp256k1Key(bytes.NewReader(bytes.Repeat([]byte{3}, 64)))
+	skey, _ := crypto.MarshalPublicKey(sPub)
+	saddr := types.KeyAddress(sPub)
+	f12 := *any
+	f12.Header.AppHash = []byte("forged-12")
+	out["hdr-secp256k1-key-proposer-address"] = rawHdr(&f12.Header, sign(&f12.Header, sPriv), gaddr, skey)
+	f12b := *any
+	f12b.Header.ProposerAddress = saddr
+	out["hdr-secp256k1-self-consistent-foreign"] = rawHdr(&f12b.Header, sign(&f12b.Header, sPriv), saddr, skey)
+	// 13 the same for signed data
+	var gd *types.SignedData
+	for _, b := range c.dat {
+		x := new(types.SignedData)
+		if x.UnmarshalBinary(b) == nil {
+			gd = x
+		}
+		break
+	}
+	if gd != nil {
+		out["data-right-key-wrong-address-field"] = rawDat(&gd.Data, gd.Signature, aaddr, gkey)
+		out["data-key-absent-proposer-address"] = rawDat(&gd.Data, gd.Signature, gaddr, nil)
+		out["data-genuine-key-type-wraps-32-bits"] = rawDat(&gd.Data, gd.Signature, gaddr, pkBytes(uint64(1<<32+1), graw))
+		out["data-genuine-key-unknown-field"] = rawDat(&gd.Data, gd.Signature, gaddr, protowire.AppendVarint(protowire.AppendTag(append([]byte(nil), gkey...), 9, protowire.VarintType), 7))
+	}
+	out["data-key-data-proposer-then-foreign"] = rawDat(&d, sg, gaddr, pkBytes(uint64(1), graw, araw))
+	ssg, _ := sPriv.Sign(pl)
+	out["data-secp256k1-key-proposer-address"] = rawDat(&d, ssg, gaddr, skey)
+	out["data-secp256k1-self-consistent-foreign"] = rawDat(&d, ssg, saddr, skey)
 	return out
 }
 
@@ -176,8 +264,12 @@ func junk(r *hx.Rng, src []byte) []byte {
 }
 
 func blobArgs(b []byte) string {
-	k, h, d := Oracles(b)
-	return fmt.Sprintf("blob=%s keyok=%d hsig=%d dsig=%d", hx.Hex(b), b01(k), b01(h), b01(d))
+	k, h, d, ka := Oracles(b)
+	s := fmt.Sprintf("blob=%s keyok=%d hsig=%d dsig=%d", hx.Hex(b), b01(k), b01(h), b01(d))
+	if len(ka) > 0 {
+		s += " kaddr=" + hx.Hex(ka)
+	}
+	return s
 }
 
 func genStream(r *hx.Rng, tier string, w io.Writer, adversarial bool) {
